@@ -106,13 +106,16 @@ def run(ctx):
             continue
         K = int(d['current_src'][-1])
         seenK.add(K)
-        g = [(rt.r(c), pol) for c, pol, s in guards_at(tick['body'], n0)]
-        want = {0: [('(<= f:%s::size0 f:%s::counter0)' % (CH, CH), False)],
-                1: [('(<= f:%s::size0 f:%s::counter0)' % (CH, CH), True), ('(<= f:%s::size1 f:%s::counter1)' % (CH, CH), False)],
-                2: [('(<= f:%s::size0 f:%s::counter0)' % (CH, CH), True), ('(<= f:%s::size1 f:%s::counter1)' % (CH, CH), True),
-                    ('(<= f:%s::size2 f:%s::counter2)' % (CH, CH), False)]}[K]
-        if [x for x in g if 'counter' in x[0]] != want:
-            ctx.report(D3, tick, n0, 'step level %d nesting' % K, 'level-%d step is taken under %s, expected %s' % (K, [x for x in g if 'counter' in x[0]], want))
+        # the carry chain as canonical literals: level K is stepped when counters 0..K-1 have reached their size and
+        # counter K has not (`counter >= size` is the negation of the atom `counter < size`)
+        from .. import boolform
+        pc_ = boolform.path_condition(tick['body'], n0, boolform.Former(tick, renderer=rt, expand_locals=False))
+        lits = boolform.literals(pc_)
+        g = sorted(x for x in (lits or set()) if 'counter' in x[0])
+        want = sorted([('(< f:%s::counter%d f:%s::size%d)' % (CH, j, CH, j), False) for j in range(K)]
+                      + [('(< f:%s::counter%d f:%s::size%d)' % (CH, K, CH, K), True)])
+        if lits is None or g != want:
+            ctx.report(D3, tick, n0, 'step level %d nesting' % K, 'level-%d step is taken under %s, expected %s' % (K, g, want))
     if seenK != {0, 1, 2}:
         ctx.report(D3, tick, tick['body'], 'step levels', 'stepping levels found: %s' % sorted(seenK))
     # counter bookkeeping
